@@ -42,7 +42,56 @@ func ruleLayoutIndependence(c *Ctx) []Obligation {
 		for _, fd := range fds {
 			// taint: locals assigned from position-typed expressions or their fields
 			tainted := map[types.Object]bool{}
-			mentionsPos := func(e ast.Node) (bool, string) {
+			var scalarFromPos func(call *ast.CallExpr, depth int) string
+			var mentionsPos func(e ast.Node) (bool, string)
+			scalarFromPos = func(call *ast.CallExpr, depth int) string {
+				g := CalleeOf(info, call)
+				if g == nil || depth > 2 || r.declPkg[g] != pk {
+					return ""
+				}
+				gd := r.decls[g]
+				if gd == nil || gd.Body == nil || gd == fd {
+					return ""
+				}
+				sig := g.Type().(*types.Signature)
+				if sig.Results().Len() != 1 {
+					return ""
+				}
+				if b, ok := sig.Results().At(0).Type().Underlying().(*types.Basic); !ok || b.Info()&(types.IsNumeric|types.IsBoolean|types.IsString) == 0 {
+					return ""
+				}
+				out := ""
+				ast.Inspect(gd.Body, func(n ast.Node) bool {
+					if _, ok := n.(*ast.FuncLit); ok {
+						return false
+					}
+					ret, ok := n.(*ast.ReturnStmt)
+					if !ok || out != "" {
+						return out == ""
+					}
+					for _, e := range ret.Results {
+						ast.Inspect(e, func(m ast.Node) bool {
+							if out != "" {
+								return false
+							}
+							switch y := m.(type) {
+							case *ast.SelectorExpr:
+								if tv, ok := info.Types[y.X]; ok && isPosType(tv.Type) {
+									out = exprStr(y)
+								}
+							case *ast.CallExpr:
+								if w := scalarFromPos(y, depth+1); w != "" {
+									out = w
+								}
+							}
+							return out == ""
+						})
+					}
+					return out == ""
+				})
+				return out
+			}
+			mentionsPos = func(e ast.Node) (bool, string) {
 				found, what := false, ""
 				if e == nil {
 					return false, ""
@@ -78,6 +127,12 @@ func ruleLayoutIndependence(c *Ctx) []Obligation {
 					case *ast.CallExpr:
 						if tv, ok := info.Types[x]; ok && isPosType(tv.Type) {
 							found, what = true, exprStr(x)
+							return false
+						}
+						// a scalar helper of the parser whose result is computed from a position
+						// (`self.onSameLine()`): the decision reads the position through it
+						if w := scalarFromPos(x, 0); w != "" {
+							found, what = true, exprStr(x)+" (returns "+w+")"
 							return false
 						}
 					}
